@@ -4,11 +4,11 @@ import io
 import itertools
 
 from ..common import chunks, exc_name, generic_replay, pool_map
-from .C12 import ident, make_msg
+from .C12 import ident, make_msg, reference
 
 RULE = ('histories (length <= 12) of documented edits on a real MidiFile - add_track, tracks.append / del tracks[i], track.append / '
         'del track[j], msg.time = t, swapping neighbours, moving ticks between neighbours, mid.type = n - interleaved with observations (merged_track, list(mid), length, save, play); '
-        'every observation is compared with the same observation on a MidiFile built afresh from deep copies of the current '
+        'an iteration left open across an edit must yield what the contents at its start or after the edit give; every observation is compared with the same observation on a MidiFile built afresh from deep copies of the current '
         'contents (the property oracle) and merged_track with the model; all histories of length <= 4 over a reduced alphabet '
         'exhaustively. Distinct by the op list; non-trivial = an edit after an observation')
 
@@ -76,6 +76,45 @@ def run_history(ops):
             elif k == 'settype':
                 mid.type = op[1]
                 lines.append('done')
+            elif k == 'iteredit':
+                # an iteration that is open while an edit happens: what it yields must be what SOME state of the contents gives
+                # (the contents when it started, or the contents after the edit) - never a mixture of the two
+                old = mido.MidiFile(type=1, ticks_per_beat=mid.ticks_per_beat, tracks=copy.deepcopy(mid.tracks))
+                old.type = mid.type
+                try:
+                    it = iter(mid)
+                    seen = []
+                    for _ in range(op[1]):
+                        m = next(it, None)
+                        if m is None:
+                            break
+                        seen.append((ident(m), m.type, m.time))
+                except TypeError:
+                    it = None
+                edit_line = 'done'
+                try:
+                    if op[2] == 'append':
+                        mid.tracks[op[3]].append(_mk(op[4]))
+                    elif op[2] == 'settime':
+                        mid.tracks[op[3]][op[4][0] % 4].time = op[4][2] + 7
+                    elif op[2] == 'removemsg':
+                        del mid.tracks[op[3]][op[4][0] % 4]
+                    else:
+                        del mid.tracks[op[3]]
+                except IndexError:
+                    edit_line = 'err IndexError'
+                if it is not None:
+                    try:
+                        seen += [(ident(m), m.type, m.time) for m in it]
+                    except Exception as e:
+                        seen = 'err ' + exc_name(e)
+                    new = mido.MidiFile(type=1, ticks_per_beat=mid.ticks_per_beat, tracks=copy.deepcopy(mid.tracks))
+                    new.type = mid.type
+                    a, b = observe(old, 'iter'), observe(new, 'iter')
+                    if seen != a and seen != b and fail is None:
+                        fail = (f'an iteration that was open during an edit yielded {str(seen)[:160]}: neither what the contents at its '
+                                f'start give {str(a)[:160]} nor what the contents after the edit give {str(b)[:160]}')
+                lines.append(edit_line)
             elif k == 'swapmsgs':
                 t = mid.tracks[op[1]]
                 t[op[2]], t[op[2] + 1] = t[op[2] + 1], t[op[2]]
@@ -95,6 +134,15 @@ def run_history(ops):
                 want = observe(fresh, k)
                 if got != want and fail is None:
                     fail = f'after {len(lines)} ops, {k} gives {str(got)[:200]} but a freshly built file with the same contents gives {str(want)[:200]}'
+                if k == 'merged' and not isinstance(got, str) and fail is None:
+                    # independent of any state the library may share between files: the reference merge of the current contents
+                    ref = [(a, bool(b), c) for a, b, c in reference(
+                        [[(ident(m), 1 if m.type == 'end_of_track' else 0, m.time) for m in tr] for tr in mid.tracks])]
+                    if [tuple(x) for x in got] != ref:
+                        fail = f'after {len(lines)} ops, merged_track is {str(got)[:200]}, the merge of the current contents is {str(ref)[:200]}'
+                    # what was handed out belongs to the caller
+                    for m in mid.merged_track:
+                        m.time = m.time + 960
                 if k == 'merged':
                     lines.append(got if isinstance(got, str) else 'track' + ''.join(' %d:%d:%d' % (a, 1 if b else 0, c) for a, b, c in got))
                 else:
@@ -131,6 +179,14 @@ def enc(op):
         return 'fop removemsg %d %d' % (op[1], op[2])
     if k == 'settime':
         return 'fop settime %d %d %d' % op[1:]
+    if k == 'iteredit':
+        if op[2] == 'append':
+            return 'fop appendmsg %d %d:%d:%d' % ((op[3],) + tuple(op[4]))
+        if op[2] == 'settime':
+            return 'fop settime %d %d %d' % (op[3], op[4][0] % 4, op[4][2] + 7)
+        if op[2] == 'removemsg':
+            return 'fop removemsg %d %d' % (op[3], op[4][0] % 4)
+        return 'fop removetrack %d' % op[3]
     if k == 'swapmsgs':
         return 'fop swapmsgs %d %d' % op[1:]
     if k == 'shifttime':
@@ -212,6 +268,18 @@ def gen(ck):
                 h.append(('settime', rng.randint(0, max(ntr - 1, 0)), rng.randint(0, 3), rng.choice([0, 1, 9, 1000])))
             elif r < 0.67:
                 h.append(('settype', rng.choice([0, 1, 1, 2])))
+            elif r < 0.70 and ntr:
+                i = rng.randint(0, ntr - 1)
+                kind = rng.choice(['append', 'droptrack', 'settime', 'settime', 'removemsg', 'removemsg'])
+                e = ev()
+                h.append(('iteredit', rng.randint(0, 4), kind, i, e))
+                if kind == 'append':
+                    lens[i] += 1
+                elif kind == 'removemsg':
+                    if e[0] % 4 < lens[i]:
+                        lens[i] -= 1
+                elif kind == 'droptrack':
+                    ntr -= 1; lens.pop(i)
             elif r < 0.72:
                 h.append(('swapmsgs', rng.randint(0, max(ntr - 1, 0)), rng.randint(0, 3)))
             elif r < 0.78:
